@@ -30,6 +30,9 @@ SINGLE_EVENT_CALLS = ("insert_one", "replace", "replace_last", "delete")
 EVENT_WRITE_CALLS = SINGLE_EVENT_CALLS + ("insert_many",)
 # ("insert_many_bad", bucket, upsert ids, n_good): n_good fine rows followed by one whose end
 # does not fit SQLite's INTEGER -> executemany raises OverflowError after n_good rows
+# ("insert_many_badup", bucket, upsert ids, k, n_rows): the id-carrying event number k (0-based) has such an
+# end -> its UPDATE raises OverflowError at bind time after k upserts, the bulk statement is never reached; since
+# a00ceb1 the loop is inside insert_many's try, so the finally clause counts len(ids) + n_rows
 READ_CALLS = ("get_event", "get_events", "get_eventcount")
 
 
@@ -337,6 +340,11 @@ class Runner:
                 evs = [_ev(E, self.fresh(), eid=i) for i in spec[2]] + [_ev(E, self.fresh()) for _ in range(spec[3])]
                 evs.append(E(timestamp=T0, duration=timedelta(days=200_000_000), data={"n": self.fresh()}))
                 st.insert_many(spec[1], evs)
+            elif name == "insert_many_badup":
+                evs = [E(id=i, timestamp=T0, duration=timedelta(days=200_000_000), data={"n": self.fresh()})
+                       if k == spec[3] else _ev(E, self.fresh(), eid=i) for k, i in enumerate(spec[2])]
+                evs += [_ev(E, self.fresh()) for _ in range(spec[4])]
+                st.insert_many(spec[1], evs)
             elif name == "replace":
                 st.replace(spec[1], spec[2], _ev(E, self.fresh()))
             elif name == "replace_last":
@@ -398,6 +406,8 @@ def model_op(call):
     if name == "insert_many_bad":       # spec[3] good rows then one that overflows
         done = spec[3] if exp == "bulk-failed" else 0
         return [14, [0] * len(spec[2]), [0] * done, spec[3] + 1 - done]
+    if name == "insert_many_badup":     # spec[3] upserts ran, no bulk statement: InsertManyFailed ups [] rest
+        return [14, [0] * spec[3], [], len(spec[2]) - spec[3] + spec[4]]
     if name == "replace_last":
         return [5, 0]
     if name == "replace":
@@ -474,6 +484,8 @@ def expectation(runner, spec):
         return None, False
     if name == "insert_many_bad":
         return ("bulk-failed" if spec[1] in have else "bulk-rejected"), True
+    if name == "insert_many_badup":
+        return "upsert-failed", True        # an UPDATE addressed to an unknown bucket matches no row, it is not rejected
     if name == "get_metadata":
         return None, spec[1] not in have
     return None, False
